@@ -68,6 +68,12 @@ def signature(e, tsig):
     # known: a string that came out of fq's fromjson, fed to fromjson again, is parsed from its source text (see known_findings.txt)
     if tsig in ('jq.fq_differs', 'jq.cli_differs') and re.search(r'fromjson\??\)*\s*\|\s*\(*fromjson', prog):
         return 'jq.diff:fromjson_of_fromjson_string'
+    # known: fq's fromjson returns a decode value; the difference disappears when its result is turned into the plain value
+    if tsig == 'jq.fq_differs' and 'fq_fromjson_tovalue' in e and 'gj' in e:
+        alt, gj = e['fq_fromjson_tovalue'], e['gj']
+        if len(alt) == len(gj) and all((a['k'] == 'v' and a == b) if b['k'] == 'v' else (a['k'] == 'e' and (not b.get('u') or a.get('v') == b.get('v')))
+                                       for a, b in zip(alt, gj)):
+            return 'jq.diff:fromjson_result_is_decode_value'
     # known: split/1 with a backslash in the separator (see known_findings.txt)
     if tsig in ('jq.fq_differs', 'jq.cli_differs'):
         for m in re.finditer(r'split\("((?:[^"\\]|\\.)*)"\)|/ "((?:[^"\\]|\\.)*)"', prog):
